@@ -701,6 +701,21 @@ package go_clipper2
 //@   ensures [exit-detaches-edge-from-its-path] ae1.outrec == nil ==> (old(ae1.outrec).frontEdge != ae1 && old(ae1.outrec).backEdge != ae1)
 //@   ensures [still-hot-or-detached] ae1.outrec == nil || ae1.outrec == old(ae1.outrec)
 
+// an open edge crosses a closed edge: the open path is cut (starts or stops contributing) only where the closed
+// edge is the boundary of a region that the fill rule fills - winding +1 under Positive, -1 under Negative, +-1
+// under NonZero / EvenOdd - and, outside Union, only at edges of the clip set (C09: 'fill rule applied to exact winding')
+//@ spec fillBoundary(fr FillRule, wc int) bool = ite(fr == Positive, wc == 1, ite(fr == Negative, wc == -1, wc == 1 || wc == -1))
+//@ func clipperBase.intersectEdges variant opencross
+//@   props C09
+//@   nosafety
+//@   requires ae1 != nil && ae2 != nil && ae1 != ae2 && ae1.localMin != nil && ae2.localMin != nil && ae1.localMin.Vertex != nil
+//@   requires c.hasOpenPaths && ae1.localMin.IsOpen && !ae2.localMin.IsOpen && ae2.joinWith == JoinNone
+//@   ensures [an-open-path-is-only-cut-at-the-boundary-of-a-filled-region] !fillBoundary(c.fillRule, ae2.windCount) ==> (ae1.outrec == old(ae1.outrec) && len(c.outrecList) == old(len(c.outrecList)) && (ae1.outrec != nil ==> ae1.outrec.pts == old(ae1.outrec.pts)))
+//@   ensures [outside-union-only-clip-edges-cut] (c.clipType != Union && ae2.localMin.PolyType == Subject) ==> (ae1.outrec == old(ae1.outrec) && len(c.outrecList) == old(len(c.outrecList)))
+//@   ensures [in-union-only-contributing-edges-cut] (c.clipType == Union && old(ae2.outrec) == nil) ==> (ae1.outrec == old(ae1.outrec) && len(c.outrecList) == old(len(c.outrecList)))
+//@   ensures [a-hot-open-edge-stops-at-a-boundary-of-the-filled-region] (fillBoundary(c.fillRule, ae2.windCount) && old(ae1.outrec) != nil && ((c.clipType == Union && old(ae2.outrec) != nil) || (c.clipType != Union && ae2.localMin.PolyType != Subject))) ==> ae1.outrec == nil
+//@   ensures [the-closed-edge-is-untouched] ae2.outrec == old(ae2.outrec) && ae2.windCount == old(ae2.windCount) && ae2.windCount2 == old(ae2.windCount2)
+
 // two open edges cross: open paths never cut one another, nothing about either edge or the output
 // changes (C09: open paths are only cut at the clip region's boundary; C03: the later maxima code
 // relies on an open edge's ring being untouched by such crossings)
@@ -1120,15 +1135,7 @@ package go_clipper2
 //@   props C03
 //@   panicfree
 
-//@ func clipperBase.adjustCurrXAndCopyToSEL
-//@   props C03
-//@   panicfree
-
 //@ func clipperBase.disposeIntersectNodes
-//@   props C03
-//@   panicfree
-
-//@ func clipperBase.doIntersections
 //@   props C03
 //@   panicfree
 
@@ -1545,6 +1552,9 @@ package go_clipper2
 //@   requires p3.X == p4.X || p3.Y == p4.Y
 //@   ensures [touching-cases-on-rect-edge] (result1 && (cross(p1, p3, p4) == 0 || cross(p2, p3, p4) == 0 || cross(p3, p1, p2) == 0 || cross(p4, p1, p2) == 0)) ==> inBox(result0, p3, p4)
 //@   ensures [no-crossing-no-result] (cross(p1, p3, p4) != 0 && cross(p2, p3, p4) != 0 && (cross(p1, p3, p4) > 0) == (cross(p2, p3, p4) > 0)) ==> !result1
+//@   ensures [first-end-point-on-the-edge-line-hits-exactly-when-it-lies-on-the-edge] (cross(p1, p3, p4) == 0 && cross(p2, p3, p4) != 0) ==> (result1 == inBox(p1, p3, p4) && (result1 ==> result0 == p1))
+//@   ensures [second-end-point-on-the-edge-line-hits-exactly-when-it-lies-on-the-edge] (cross(p1, p3, p4) != 0 && cross(p2, p3, p4) == 0) ==> (result1 == inBox(p2, p3, p4) && (result1 ==> result0 == p2))
+//@   ensures [segment-along-the-edge-line-is-no-crossing] (cross(p1, p3, p4) == 0 && cross(p2, p3, p4) == 0) ==> !result1
 
 //@ spec allInRect(r Rect64, path Path64) bool = forall(k, 0, len(path), inBounds(r, path[k]))
 //@ spec allBeside(r Rect64, path Path64) bool = forall(k, 0, len(path), path[k].X < r.left) || forall(k, 0, len(path), path[k].X > r.right) || forall(k, 0, len(path), path[k].Y < r.top) || forall(k, 0, len(path), path[k].Y > r.bottom)
@@ -1619,6 +1629,7 @@ package go_clipper2
 //@   loop 0 step [split-rings-own-their-entry-points] (!c.usingPolyTree && or2.pts != nil && or2.owner == or1 && or1 != or2 && old(or1.pts != nil && or1.pts.outrec == or1 && j.op1.next != j.op1 && j.op1 != nil) && old(len(c.outrecList)) < len(c.outrecList)) ==> (or1.pts.outrec == or1 && or2.pts.outrec == or2)
 //@   loop 0 step [tree-split-ring-gets-an-owner] (c.usingPolyTree && old(len(c.outrecList)) < len(c.outrecList)) ==> (or2 != or1 && (or2.owner == or1 || or2.owner == or1.owner))
 //@   loop 0 step [flat-joined-ring-owned-by-first] !c.usingPolyTree ==> or2.owner == or1
+//@   loop 0 step [two-rings-welded-into-one-leave-the-second-without-points] (old(len(c.outrecList)) == len(c.outrecList) && or2 != nil) ==> or2.pts == nil
 
 // ---------------------------------------------------------------------------------
 // Output-ring and active-edge-list surgery (C02, C03, C09): loop-free heap functions
@@ -1766,6 +1777,8 @@ package go_clipper2
 //@   loop 0 invariant [look-ahead] 1 <= i && i <= highI && highI == len(path) - 1 && len(path) >= 2
 //@   loop 0 decreases highI - i
 //@   loop 2 invariant [walk] 1 <= i && highI == len(path) - 1 && len(path) >= 2 && validLoc(loc) && rectOK(r)
+//@   loop 2 entry [no-leading-segment-is-skipped-the-walk-starts-at-the-second-vertex] i == 1
+//@   loop 2 entry [a-line-that-starts-inside-has-an-output-path-open] loc == Inside ==> len(r.results) >= 1
 
 //@ func RectClip64.addCorner
 //@   props C06 C03
@@ -2007,6 +2020,7 @@ package go_clipper2
 //@   ensures [new-open-ring] result != nil && ae.outrec != nil && ae.outrec.isOpen && ae.outrec.pts == result && result.pt == pt && result.outrec == ae.outrec && result.next == result && result.prev == result
 //@   ensures [side-by-direction] (ae.windDx > 0 ==> (ae.outrec.frontEdge == ae && ae.outrec.backEdge == nil)) && (ae.windDx <= 0 ==> (ae.outrec.frontEdge == nil && ae.outrec.backEdge == ae))
 //@   ensures [registered] len(c.outrecList) == old(len(c.outrecList)) + 1 && c.outrecList[len(c.outrecList)-1] == ae.outrec
+//@   ensures [other-edges-untouched] forallp(e, Active, e != ae ==> e.outrec == old(e.outrec))
 
 //@ func clipperBase.joinOutrecPaths
 //@   props C02 C03 C09
@@ -2062,9 +2076,13 @@ package go_clipper2
 // the geometric order test is kept opaque here (its own safety needs vertex-ring invariants that are
 // not stated); insertLeftEdge's list surgery does not depend on which answer it gives
 //@ func isValidAelOrder
-//@   props C01
+//@   props C01 C17
 //@   pure
-//@   trusted
+//@   nosafety
+//@   assumes resident != nil && newcomer != nil && dom(resident.top, 29) && dom(resident.bot, 29) && dom(newcomer.top, 29) && dom(newcomer.bot, 29)
+//@   assumes resident.vertexTop != nil && newcomer.vertexTop != nil && resident.localMin != nil && resident.localMin.Vertex != nil && forallp(v, Vertex, v.next != nil && v.prev != nil && dom(v.pt, 29))
+//@   ensures [the-edge-further-right-at-the-scanline-goes-right] newcomer.curX != resident.curX ==> result == (newcomer.curX > resident.curX)
+//@   ensures [at-the-same-x-the-turn-at-the-newcomers-bottom-decides] (newcomer.curX == resident.curX && cross(resident.top, newcomer.bot, newcomer.top) != 0) ==> result == (cross(resident.top, newcomer.bot, newcomer.top) < 0)
 
 // PolyTree construction: a record is attached below its owner, and the recursion into the owner
 // only happens for owners whose bounds are known to be non-empty (an unbounded owner would return at
@@ -2138,9 +2156,17 @@ package go_clipper2
 // at the top of a scanbeam every edge that ends there is moved to its top vertex before it is
 // processed as a maximum: doMaxima and the horizontals it triggers read curX (C01)
 //@ func clipperBase.doMaxima
-//@   props C01
-//@   trusted
+//@   props C01 C09 C02
+//@   nosafety
+//@   opaque clipperBase.intersectEdges clipperBase.swapPositionsInAEL clipperBase.split clipperBase.addLocalMaxPoly
 //@   requires [edge-stands-at-its-top] ae != nil && ae.curX == ae.top.X
+//@   assumes ae.localMin != nil && ae.vertexTop != nil && ae.prevInAEL != ae && ae.nextInAEL != ae
+//@   assumes ae.outrec != nil ==> (ae.outrec.pts != nil && ae.outrec.pts.next != nil)
+//@   assumes (ae.prevInAEL == nil) == (c.actives == ae)
+//@   ensures [the-last-edge-of-the-list-has-no-partner-yet-and-waits] (!openEnd(ae) && old(ae.nextInAEL) == nil) ==> (result == nil && ae.outrec == old(ae.outrec) && c.actives == old(c.actives) && ae.prevInAEL == old(ae.prevInAEL))
+//@   ensures [a-sloped-open-end-leaves-the-list-detached-from-its-path] (openEnd(ae) && ae.top.Y != ae.bot.Y) ==> (ae.outrec == nil && result == old(ae.nextInAEL) && (old(ae.outrec) != nil ==> ((old(ae.outrec.frontEdge) == ae ==> old(ae.outrec).frontEdge == nil) && (old(ae.outrec.frontEdge) != ae ==> old(ae.outrec).backEdge == nil))) && (old(ae.prevInAEL) != nil ==> old(ae.prevInAEL).nextInAEL == old(ae.nextInAEL)) && (old(ae.prevInAEL) == nil ==> c.actives == old(ae.nextInAEL)))
+//@   ensures [a-horizontal-open-end-stays-for-the-horizontal-pass] (openEnd(ae) && ae.top.Y == ae.bot.Y) ==> (result == old(ae.nextInAEL) && ae.outrec == old(ae.outrec) && ae.nextInAEL == old(ae.nextInAEL) && c.actives == old(c.actives))
+//@   loop 0 step [the-edge-is-crossed-with-its-right-neighbour-until-it-meets-its-partner] nextE == ae.nextInAEL
 
 //@ func clipperBase.doTopOfScanbeam
 //@   props C01
@@ -2148,9 +2174,13 @@ package go_clipper2
 
 // kept opaque here: its own obligations need the vertex ring and the join preconditions
 //@ func clipperBase.updateEdgeIntoAEL
-//@   props C01
-//@   trusted
-//@   assumes ae != nil && ae.vertexTop != nil
+//@   props C01 C02 C08
+//@   nosafety
+//@   opaque clipperBase.insertScanline clipperBase.split trimHorz
+//@   assumes ae != nil && ae.vertexTop != nil && ae.localMin != nil && forallp(v, Vertex, v.next != nil && v.prev != nil && dom(v.pt, 61)) && forallp(e, Active, e.localMin != nil) && dom(ae.top, 61)
+//@   assert after ae.curX#0 [the-edge-advances-to-its-next-segment] ae.bot == old(ae.top) && ae.vertexTop == ite(ae.windDx > 0, old(ae.vertexTop).next, old(ae.vertexTop).prev) && ae.top == ae.vertexTop.pt && ae.curX == ae.bot.X
+//@   assert after call:setDx#0 [the-slope-is-that-of-the-new-segment] ae.bot.Y == ae.top.Y ==> ae.dx == ite(ae.top.X > ae.bot.X, negInf, posInf)
+//@   assert after call:clipperBase.checkJoinRight#0 [a-join-to-the-right-needs-the-new-bottom-on-the-neighbours-line] (old(ae.nextInAEL) != nil && PerpendicDistFromLineSqr64(ae.bot, old(ae.nextInAEL.bot), old(ae.nextInAEL.top)) > 0.25) ==> ae.joinWith == old(ae.joinWith)
 
 // ---------------------------------------------------------------------------------
 // Exact specifications of the sweep's small helpers (C01, C02, C09, C03).  `inline`: callers still
@@ -2365,9 +2395,10 @@ package go_clipper2
 //@   props C01 C03
 //@   nosafety
 //@   assumes ae != nil
-//@   loop 0 invariant [walk] (ae.nextInAEL != nil && ae.nextInAEL.vertexTop == ae.vertexTop) ==> ae2 == ae.nextInAEL
+//@   loop 0 invariant [walk] ((ae.nextInAEL != nil && ae.nextInAEL.vertexTop == ae.vertexTop) ==> ae2 == ae.nextInAEL) && (ae.nextInAEL == nil ==> ae2 == nil)
 //@   ensures [shares-the-top-vertex] result == nil || result.vertexTop == ae.vertexTop
 //@   ensures [immediate-neighbour-wins] (ae.nextInAEL != nil && ae.nextInAEL.vertexTop == ae.vertexTop) ==> result == ae.nextInAEL
+//@   ensures [last-edge-has-none] ae.nextInAEL == nil ==> result == nil
 
 //@ func getCurrYMaximaVertex
 //@   props C01 C03
@@ -2443,3 +2474,115 @@ package go_clipper2
 //@   assert after cross#1 [cross-keeps-its-sign] (cross == 0) == (perpNumI(pt, line1, line2) == 0)
 //@   ensures [a-point-on-the-line-has-distance-exactly-zero] perpNumI(pt, line1, line2) == 0 ==> result == 0
 //@   ensures [an-off-line-point-has-positive-distance] (perpNumI(pt, line1, line2) != 0 && line1 != line2) ==> result > 0
+
+// addPathsToVertexList (C09, C17, C01): walking a path's vertex ring, a vertex where the path turns from going up
+// (Y decreasing) to going down is flagged a local maximum, a vertex where it turns from going down to going up is
+// registered as a local minimum (once), and between turns the direction is kept; an open path's first vertex
+// carries OpenStart and its last vertex OpenEnd; no paths, no change
+//@ func addPathsToVertexList
+//@   props C09 C17 C01 C19 C03
+//@   nosafety
+//@   loop 1.3 step [a-turn-from-up-to-down-is-a-local-maximum] (old(goingUp) && old(currV).pt.Y > old(prevV).pt.Y) ==> ((old(prevV).flags & LocalMax) != None && !goingUp && len(*minimaList) == old(len(*minimaList)))
+//@   loop 1.3 step [a-turn-from-down-to-up-is-a-local-minimum] (!old(goingUp) && old(currV).pt.Y < old(prevV).pt.Y) ==> (goingUp && (old(prevV).flags & LocalMin) != None && ((old(old(prevV).flags) & LocalMin) == None ==> (len(*minimaList) == old(len(*minimaList)) + 1 && (*minimaList)[len(*minimaList)-1].Vertex == old(prevV) && (*minimaList)[len(*minimaList)-1].PolyType == polytype && (*minimaList)[len(*minimaList)-1].IsOpen == isOpen)))
+//@   loop 1.3 step [between-turns-nothing-is-flagged] (!(old(goingUp) && old(currV).pt.Y > old(prevV).pt.Y) && !(!old(goingUp) && old(currV).pt.Y < old(prevV).pt.Y)) ==> (goingUp == old(goingUp) && old(prevV).flags == old(old(prevV).flags) && len(*minimaList) == old(len(*minimaList)))
+//@   loop 1.3 step [the-walk-advances-one-vertex] prevV == old(currV) && currV == old(currV).next
+//@   assert after v0.flags#0 [an-open-path-that-starts-upwards-starts-at-a-local-minimum] (v0.flags & OpenStart) != None && (v0.flags & LocalMax) == None
+//@   assert after v0.flags#1 [an-open-path-that-starts-downwards-starts-at-a-local-maximum] (v0.flags & OpenStart) != None && (v0.flags & LocalMax) != None
+//@   loop 0 invariant [lists-untouched-while-counting] len(*minimaList) == old(len(*minimaList)) && len(*vertexList) == old(len(*vertexList))
+//@   loop 1 invariant [nothing-added-without-a-path] _i == 0 ==> (len(*minimaList) == old(len(*minimaList)) && len(*vertexList) == old(len(*vertexList)))
+//@   assert after goingUp#2 [a-closed-path-starts-in-the-direction-of-its-nearest-predecessor-on-another-level] prevV != nil && prevV != v0 && prevV.pt.Y != v0.pt.Y && goingUp == (prevV.pt.Y > v0.pt.Y)
+//@   ensures [no-paths-no-change] len(paths) == 0 ==> (len(*minimaList) == old(len(*minimaList)) && len(*vertexList) == old(len(*vertexList)))
+
+// insertLocalMinimaIntoAEL (C01, C09, C17): the two bounds that leave a local minimum - the one towards the previous
+// vertex winds negatively, the one towards the next vertex positively; the bound that leaves to the left is inserted
+// as the left bound, its partner directly to its right with the same winding counts
+//@ func clipperBase.insertLocalMinimaIntoAEL
+//@   props C01 C09 C17 C03
+//@   nosafety
+//@   opaque clipperBase.isContributingClosed clipperBase.isContributingOpen clipperBase.intersectEdges clipperBase.swapPositionsInAEL clipperBase.insertScanline clipperBase.checkJoinLeft clipperBase.checkJoinRight clipperBase.setWindCountForClosedPathEdge clipperBase.setWindCountForOpenPathEdge
+//@   assumes forallp(v, Vertex, dom(v.pt, 61) && v.next != nil && v.prev != nil) && forallp(m, LocalMinima, m.Vertex != nil)
+//@   assert after leftBound#2 [the-bound-towards-the-previous-vertex-winds-negatively] leftBound != nil && leftBound.windDx == -1 && leftBound.vertexTop == locMin.Vertex.prev && leftBound.bot == locMin.Vertex.pt && leftBound.top == locMin.Vertex.prev.pt && leftBound.curX == locMin.Vertex.pt.X && leftBound.outrec == nil && leftBound.localMin == locMin && leftBound.joinWith == JoinNone
+//@   assert after rightBound#2 [the-bound-towards-the-next-vertex-winds-positively] rightBound != nil && rightBound.windDx == 1 && rightBound.vertexTop == locMin.Vertex.next && rightBound.bot == locMin.Vertex.pt && rightBound.top == locMin.Vertex.next.pt && rightBound.curX == locMin.Vertex.pt.X && rightBound.outrec == nil && rightBound.localMin == locMin && rightBound.joinWith == JoinNone
+//@   assert after contributing#0 [the-left-bound-is-the-one-that-leaves-the-minimum-to-the-left] (leftBound != nil && rightBound != nil) ==> (leftBound != rightBound && leftBound.windDx == -rightBound.windDx && ((leftBound.top.Y != leftBound.bot.Y && rightBound.top.Y != rightBound.bot.Y) ==> leftBound.dx >= rightBound.dx) && ((leftBound.top.Y == leftBound.bot.Y && rightBound.top.Y != rightBound.bot.Y) ==> leftBound.dx == posInf) && ((leftBound.top.Y != leftBound.bot.Y && rightBound.top.Y == rightBound.bot.Y) ==> rightBound.dx == negInf))
+//@   assert after contributing#0 [a-minimum-always-has-a-left-bound] leftBound != nil || ((locMin.Vertex.flags & OpenStart) != None && (locMin.Vertex.flags & OpenEnd) != None)
+//@   assert after rightBound.windCount2#0 [the-right-bound-bounds-the-same-regions-as-the-left-bound] rightBound.windCount == leftBound.windCount && rightBound.windCount2 == leftBound.windCount2
+//@   assert after call:insertRightEdge#0 [the-right-bound-is-inserted-directly-right-of-the-left-bound] leftBound.nextInAEL == rightBound && rightBound.prevInAEL == leftBound
+
+// the sweep's main loop (C17, C02): the horizontal segments collected on a scanline are turned into joins and
+// discarded before the sweep leaves that scanline - a segment that survived could later be paired with a segment of
+// another scanline, because pairing only compares X ranges and directions
+//@ func clipperBase.executeInternal
+//@   props C17 C02 C01
+//@   nosafety
+//@   opaque clipperBase.popScanline clipperBase.reset
+//@   assert after c.currentBotY#0 [horizontal-segments-are-consumed-before-the-sweep-leaves-their-scanline] len(c.horzSegList) == 0
+
+// convertHorzSegsToJoins (C02, C17): a join is recorded only for two horizontal segments that run in opposite
+// directions and whose X ranges properly overlap, and at most one per pair
+//@ func clipperBase.convertHorzSegsToJoins
+//@   props C02 C17 C03
+//@   nosafety
+//@   opaque clipperBase.updateHorzSegment duplicateOp
+//@   loop 1.0 step [only-overlapping-segments-of-opposite-direction-are-joined] len(c.horzJoinList) != old(len(c.horzJoinList)) ==> (len(c.horzJoinList) == old(len(c.horzJoinList)) + 1 && old(c.horzSegList[j].leftToRight != hs1.leftToRight && c.horzSegList[j].leftOp.pt.X < hs1.rightOp.pt.X && c.horzSegList[j].rightOp.pt.X > hs1.leftOp.pt.X))
+//@   loop 1.0 step [pairs-are-tried-in-order] j == old(j) + 1
+
+// doHorizontal (C01, C09): a horizontal edge is crossed with the edges it passes, each at that edge's current X on
+// the horizontal's level, and it advances to that X; unless it ends at the maximum it is heading for, it never
+// crosses an edge that stands beyond the far end of its span - an open path's last horizontal included
+//@ func clipperBase.doHorizontal
+//@   props C01 C09 C03
+//@   nosafety
+//@   opaque clipperBase.intersectEdges clipperBase.swapPositionsInAEL clipperBase.checkJoinLeft clipperBase.checkJoinRight clipperBase.split clipperBase.addLocalMaxPoly clipperBase.updateEdgeIntoAEL topX
+//@   assumes horz != nil && horz.localMin != nil && horz.vertexTop != nil && forallp(v, Vertex, v.next != nil && v.prev != nil) && forallp(e, Active, e.localMin != nil && e.vertexTop != nil)
+//@   assumes forallp(e, Active, e.outrec != nil ==> (e.outrec.pts != nil && e.outrec.pts.next != nil))
+//@   loop 0.0 step [the-horizontal-advances-to-the-edge-it-crossed] horz.curX == old(ae).curX && ae == ite(isLeftToRight, horz.nextInAEL, horz.prevInAEL)
+//@   loop 0.0 step [no-edge-beyond-the-span-is-crossed-unless-the-horizontal-ends-at-its-maximum] (old(vertexMax != horz.vertexTop) || old(openEnd(horz))) ==> (!(isLeftToRight && old(ae.curX) > rightX) && !(!isLeftToRight && old(ae.curX) < leftX))
+//@   loop 0.0 step [the-partner-at-the-maximum-ends-the-pass] old(ae.vertexTop) != vertexMax
+
+// buildIntersectList (C01): the merge over the edges sorted by their X at the top of the scanbeam records crossings
+// only for pairs that are out of order there; a pair in order is left alone, an out-of-order right edge is moved
+// directly in front of the left edge it has overtaken
+//@ func clipperBase.buildIntersectList
+//@   props C01 C03
+//@   nosafety
+//@   opaque clipperBase.addNewIntersectNode clipperBase.adjustCurrXAndCopyToSEL
+//@   assumes len(c.intersectList) == 0
+//@   ensures [reports-whether-any-crossing-was-recorded] result == (len(c.intersectList) > 0)
+//@   loop 0.0.0 step [edges-in-order-at-the-top-of-the-beam-are-not-crossed] !(old(right).curX < old(left).curX) ==> (len(c.intersectList) == old(len(c.intersectList)) && left == old(left).nextInSEL && right == old(right) && lEnd == old(lEnd))
+//@   loop 0.0.0 step [an-overtaking-edge-is-moved-directly-in-front-of-the-edge-it-overtook] (old(right).curX < old(left).curX) ==> (old(right).nextInSEL == old(left) && old(left).prevInSEL == old(right) && left == old(left) && lEnd == right)
+
+// the sorted edge list is a copy of the active edge list taken at the top of the scanbeam, with every edge moved
+// to its X at that level (C01); the intersections of a beam are built, processed and then discarded (C12)
+//@ func clipperBase.adjustCurrXAndCopyToSEL
+//@   props C01 C03
+//@   nosafety
+//@   assumes forallp(e, Active, dom(e.bot, 52) && dom(e.top, 52) && absI(e.dx * toReal(topY - e.bot.Y)) <= toReal(pow2(54))) && absI(topY) <= pow2(52)
+//@   loop 0 step [each-edge-is-copied-with-its-neighbours-and-moved-to-the-top-of-the-beam] old(ae).prevInSEL == old(ae).prevInAEL && old(ae).nextInSEL == old(ae).nextInAEL && old(ae).jump == old(ae).nextInAEL && ae == old(ae).nextInAEL
+//@   loop 0 step [x-at-the-top-of-the-beam-is-exact-at-the-edge-ends] (topY == old(ae).top.Y ==> old(ae).curX == old(ae).top.X) && ((topY == old(ae).bot.Y && topY != old(ae).top.Y && old(ae).top.X != old(ae).bot.X) ==> old(ae).curX == old(ae).bot.X)
+//@   loop 0 invariant [head] c.sel == c.actives
+//@   ensures [the-copy-starts-at-the-head-of-the-active-list] c.sel == c.actives && c.actives == old(c.actives)
+
+//@ func clipperBase.doIntersections
+//@   props C01 C12 C03
+//@   nosafety
+//@   opaque clipperBase.processIntersectList
+//@   assumes len(c.intersectList) == 0
+//@   ensures [crossings-do-not-outlive-their-beam] len(c.intersectList) == 0
+
+//@ func clipperBase.pushHorz
+//@   props C01 C03
+//@   inline
+//@   requires ae != nil
+//@   ensures [pushed-on-the-stack-of-pending-horizontals] c.sel == ae && ae.nextInSEL == old(c.sel)
+
+//@ func clipperBase.hasLocMinAtY
+//@   props C01 C03
+//@   inline
+//@   nosafety
+//@   ensures [next-unprocessed-minimum-lies-on-this-scanline] result == (c.currentLocMin < len(c.minimaList) && c.minimaList[c.currentLocMin].Vertex.pt.Y == y)
+
+//@ func clipperBase.popLocalMinima
+//@   props C01 C03
+//@   inline
+//@   nosafety
+//@   ensures [minima-are-taken-in-list-order-each-once] result == c.minimaList[old(c.currentLocMin)] && c.currentLocMin == old(c.currentLocMin) + 1
